@@ -99,6 +99,17 @@ def r1(run, ctx):
         run.check('R1', cfg.exit.id not in rr, 'every adopted child (after_spawn true) is '
                   'announced before spawn_process returns', f, r.ast,
                   'a child can be adopted (registered, hook accepted) without a spawn event')
+    # whatever the hooks say: a child that is still in the table when spawn_process returns
+    # has been announced (a refused child is taken out again before returning)
+    rem = removals(ctx, f)
+    for r in regs:
+        rr = reach_under(cfg, r, proc_not_none, avoid=ev + rem,
+                         labels_excluded=('exc', 'raise', 'reraise'))
+        run.check('R1', cfg.exit.id not in rr, 'spawn_process never returns with a registered '
+                  'child that was not announced', f, r.ast,
+                  'spawn_process can return leaving a child in the table for which no spawn '
+                  'event was published (refused by a hook): its later reap event refers to a '
+                  'pid no subscriber has seen', construct='registered child not announced')
     # no suspension between registration and event (function is not a coroutine)
     run.check('R1', not f.is_coroutine and not f.is_generator, 'spawn_process has no suspension '
               'point (no reap can interleave between registration and announcement)', f, f.node)
